@@ -21,6 +21,7 @@ Oracle (model independent, real code, exact Fraction definitions from vlib/exact
   as the v = 1/2 line at the Greville points.
 """
 import itertools
+import os
 from fractions import Fraction as F
 
 import numpy as np
@@ -513,6 +514,39 @@ def generate(rng, tier):
         o = dict(o, cps=cps.tolist())
         specs.append({'form': 'thicken', 'obj': o, 'amount': rng.choice([0.25, 0.5, 1.0])})
     return specs
+
+
+# ---------------------------------------------------------------------------------------------
+# source-derived Lean: the section utilities are re-translated from the Python AST on every run
+
+def regenerate(sp, lean_dir):
+    """Write lean/Splipy/Generated/C15.lean from the current `splipy/utils/__init__.py`.
+    `Properties/C15.lean` (`C15_translated_*`) proves the generated definitions equal to the hand model,
+    so a change of `sections` / `section_from_index` / `section_to_index` / `check_section` /
+    `check_direction` that alters their behaviour (pardim <= 3) breaks the build of the property module."""
+    from translate import sections_translate as T
+    path = os.path.join(os.path.dirname(os.path.abspath(sp.__file__)), 'utils', '__init__.py')
+    src = open(path, encoding='utf-8').read()
+    info = {'source': 'splipy/utils/__init__.py::' + ','.join(T.ORDER), 'obligations': []}
+    try:
+        r = T.translate(src)
+        text = r['lean']
+        info.update(digest=r['digest'], notes=r['notes'])
+        info['obligations'].append({'name': 'C15_translate', 'ok': True, 'detail': 'translated %d functions' % len(T.ORDER)})
+    except T.Untranslatable as e:
+        text = (T.HEADER % ', '.join(T.ORDER)) + '-- UNTRANSLATABLE: %s\n\nend Splipy.Generated.C15\n' % str(e).replace('-/', '- /')
+        info['obligations'].append({'name': 'C15_translate', 'ok': False,
+                                    'detail': 'the section utilities use a construct outside the translated subset: %s' % e})
+    gdir = os.path.join(lean_dir, 'Splipy', 'Generated')
+    os.makedirs(gdir, exist_ok=True)
+    gpath = os.path.join(gdir, 'C15.lean')
+    old = open(gpath, encoding='utf-8').read() if os.path.exists(gpath) else None
+    if old != text:
+        tmp = gpath + '.tmp%d' % os.getpid()
+        with open(tmp, 'w', encoding='utf-8') as f:
+            f.write(text)
+        os.replace(tmp, gpath)
+    return info
 
 
 # ---------------------------------------------------------------------------------------------
